@@ -258,7 +258,7 @@ Print Assumptions C01_ignore_order_perm_refuted_alias.
     What the model does not have, and the implementation does (Obj/NOTES.md): `del obj.__dict__[name]`
     on a __slots__ instance (observation OBJ1) and the `!=` on instances of a class without __eq__
     when a list item is removed (observation OBJ2). *)
-From DD Require Obj.ObjValue Obj.ObjModel Obj.ObjRoundtrip Obj.ObjExamples.
+From DD Require Obj.ObjValue Obj.ObjModel Obj.ObjRoundtrip Obj.ObjExamples Delta.DeltaChain.
 
 Theorem C01_objects_roundtrip_partial :
   forall hatom udiff ops c conv bidir always,
@@ -286,6 +286,26 @@ Theorem C01_objects_roundtrip_oracles_partial :
                 /\ Obj.ObjRoundtrip.oveqb t2' t2 = true.
 Proof. intros. eapply Obj.ObjRoundtrip.oroundtrip; eassumption. Qed.
 Print Assumptions C01_objects_roundtrip_oracles_partial.
+
+(* the same with the guards as ONE boolean function of the two values (Delta.DeltaChain.guardsb on the
+   encodings: well-formed, alias-free atoms, tuples hold scalars only and keep their length, a type change
+   either stores its values or is scalar to scalar, no private dict key / attribute name) *)
+Theorem C01_objects_roundtrip_decidable_guards_partial :
+  forall hatom udiff ops c conv bidir always,
+    (forall a b, hatom a = hatom b -> a = b) ->
+    (forall ty0 v v', conv ty0 v = Some v' -> type_of v' = ty0) ->
+  forall ro ao (t1 t2 : Obj.ObjValue.ovalue),
+    (forall p xs ys, forallb is_atom xs = true -> forallb is_atom ys = true -> valid_ops xs ys (ops p xs ys)) ->
+    ro_ok ro -> ao_ok ao -> 0 < thr_num c -> Obj.ObjValue.owf t1 = true -> Obj.ObjValue.owf t2 = true ->
+    Delta.DeltaChain.guardsb c bidir always (Obj.ObjValue.enc t1) (Obj.ObjValue.enc t2) = true ->
+    exists t2', Obj.ObjModel.oapply conv ro ao (Obj.ObjModel.odelta hatom udiff ops c conv bidir always t1 t2) t1 = (t2', 0)
+                /\ Obj.ObjRoundtrip.oveqb t2' t2 = true.
+Proof.
+  intros hatom udiff ops c conv bidir always Hinj Hconv ro ao t1 t2 Hops Hro Hao Hpos W1 W2 G.
+  eapply Obj.ObjRoundtrip.oroundtrip; try eassumption.
+  eapply Delta.DeltaChain.guardsb_sound; eassumption.
+Qed.
+Print Assumptions C01_objects_roundtrip_decidable_guards_partial.
 
 (* a result of Delta known up to order decodes to the object value up to order: the decoding
    does not depend on the order in which a rebuilt dict holds the two items of an instance *)
